@@ -27,14 +27,17 @@ structure MPage where
 def canonErr (e : String) : String :=
   if e.startsWith "panic: nil" then "panic: nil" else e
 
+/-- The default order of the harness' repository. -/
+def pgDefaultOrder : Order := .desc
+
 def stepAQ (table : List Row) : AQ → MPage
   | .col q =>
-    match paginateCol q table with
+    match paginateCol (q.withOrder pgDefaultOrder) table with
     | .error e => { err := canonErr e }
     | .ok p => { data := p.data.map (·.tag), pageSize := p.pageSize, hasMore := p.hasMore,
                  next := p.next.map AQ.col, prev := p.previous.map AQ.col }
   | .off q =>
-    match paginateOff q table with
+    match paginateOff (q.withOrder pgDefaultOrder) table with
     | .error e => { err := canonErr e }
     | .ok p => { data := p.data.map (·.tag), pageSize := p.pageSize, hasMore := p.hasMore,
                  next := p.next.map AQ.off, prev := p.previous.map AQ.off }
@@ -200,10 +203,7 @@ def handleCursor1 : Handler := fun inp out => do
   match decoded with
   | .error e =>
     -- `bad-order` decodes fine in Go (any int) and panics later in `Order.String`
-    if e.startsWith "panic" then
-      pure { model := Json.mkObj [("panic", e)], agree := gPanic.startsWith "panic: interface conversion",
-             tags := ["panic:null-cursor"], nontrivial := false }
-    else if e == "bad-order" then
+    if e == "bad-order" then
       pure { model := Json.mkObj [("err", "bad-order")], agree := gDecodeErr == "", tags := ["bad-order"], nontrivial := false }
     else
       pure { model := Json.mkObj [("decodeErr", "decode")], agree := gDecodeErr == "decode" && gPanic == "",
